@@ -40,6 +40,8 @@ pub fn decode(id: &str, data: &[u8]) -> Option<Value> {
     let r = match id {
         "C02" => crate::props::c02::decode(&mut u),
         "C03" => crate::props::c03::decode(&mut u),
+        "C12" => crate::props::c12::decode(&mut u),
+        "C13" => crate::props::c13::decode(&mut u),
         "C16" => crate::props::c16::decode(&mut u),
         "C18" => crate::props::c18::decode(&mut u),
         _ => return None,
@@ -47,7 +49,7 @@ pub fn decode(id: &str, data: &[u8]) -> Option<Value> {
     r.ok()
 }
 
-pub const TARGETS: [&str; 4] = ["C02", "C03", "C16", "C18"];
+pub const TARGETS: [&str; 6] = ["C02", "C03", "C12", "C13", "C16", "C18"];
 
 fn fails(e: &Entry, case: &Value) -> Option<engine::Violation> {
     match engine::run_guarded(&*e.prop, case).violation {
